@@ -6,6 +6,7 @@ package faultdb
 
 import (
 	"errors"
+	"sync"
 
 	"github.com/btcsuite/btcwallet/walletdb"
 )
@@ -15,6 +16,7 @@ var ErrInjected = errors.New("faultdb: injected write failure")
 // Injector counts mutating calls and fails the FailAt-th one (1-based).
 // FailAt = 0 never fails (used to count the writes of an operation).
 type Injector struct {
+	mu     sync.Mutex
 	FailAt int
 	Count  int
 	Fired  bool
@@ -22,6 +24,8 @@ type Injector struct {
 }
 
 func (in *Injector) hit(kind string) error {
+	in.mu.Lock()
+	defer in.mu.Unlock()
 	in.Count++
 	if in.FailAt != 0 && in.Count == in.FailAt {
 		in.Fired = true
@@ -136,4 +140,78 @@ func (c *cursor) Delete() error {
 		return err
 	}
 	return c.c.Delete()
+}
+
+// ---- a whole database decorated (wallet-level fault injection) ----
+
+// DB decorates a walletdb.DB: while an Injector is installed with Arm, every
+// read-write transaction hands out decorated buckets, whichever goroutine of
+// the wallet opens it.  The injector counts across transactions, so FailAt = k
+// fails the k-th write of a multi-transaction wallet operation.
+type DB struct {
+	walletdb.DB
+	mu  sync.Mutex
+	inj *Injector
+}
+
+func WrapDB(db walletdb.DB) *DB { return &DB{DB: db} }
+
+// Arm installs (or, with nil, removes) the injector.
+func (d *DB) Arm(in *Injector) {
+	d.mu.Lock()
+	d.inj = in
+	d.mu.Unlock()
+}
+
+func (d *DB) current() *Injector {
+	d.mu.Lock()
+	defer d.mu.Unlock()
+	return d.inj
+}
+
+func (d *DB) BeginReadWriteTx() (walletdb.ReadWriteTx, error) {
+	tx, err := d.DB.BeginReadWriteTx()
+	if err != nil {
+		return nil, err
+	}
+	if in := d.current(); in != nil {
+		return &rwtx{ReadWriteTx: tx, in: in}, nil
+	}
+	return tx, nil
+}
+
+func (d *DB) Update(f func(tx walletdb.ReadWriteTx) error, reset func()) error {
+	return d.DB.Update(func(tx walletdb.ReadWriteTx) error {
+		if in := d.current(); in != nil {
+			return f(&rwtx{ReadWriteTx: tx, in: in})
+		}
+		return f(tx)
+	}, reset)
+}
+
+type rwtx struct {
+	walletdb.ReadWriteTx
+	in *Injector
+}
+
+func (t *rwtx) ReadWriteBucket(key []byte) walletdb.ReadWriteBucket {
+	return t.in.WrapBucket(t.ReadWriteTx, t.ReadWriteTx.ReadWriteBucket(key))
+}
+
+func (t *rwtx) CreateTopLevelBucket(key []byte) (walletdb.ReadWriteBucket, error) {
+	if err := t.in.hit("CreateTopLevelBucket"); err != nil {
+		return nil, err
+	}
+	b, err := t.ReadWriteTx.CreateTopLevelBucket(key)
+	if err != nil {
+		return nil, err
+	}
+	return t.in.WrapBucket(t.ReadWriteTx, b), nil
+}
+
+func (t *rwtx) DeleteTopLevelBucket(key []byte) error {
+	if err := t.in.hit("DeleteTopLevelBucket"); err != nil {
+		return err
+	}
+	return t.ReadWriteTx.DeleteTopLevelBucket(key)
 }
